@@ -185,7 +185,7 @@ func TestLimits(t *testing.T) {
 		x := xs(seed)
 		for _, total := range []int{4000000, 4000001} {
 			tx := &wire.MsgTx{Version: 2, TxIn: []*wire.TxIn{{Sequence: uint32(x.next())}}, TxOut: []*wire.TxOut{{Value: int64(x.next() >> 1)}}}
-			base := len(wirefmt.TxBytes(tx, false)) // with an empty script (1 length byte)
+			base := len(wirefmt.TxBytes(tx, false))            // with an empty script (1 length byte)
 			tx.TxOut[0].PkScript = bulkBytes(total-base-4, &x) // length prefix grows from 1 to 5 bytes
 			payload := wirefmt.TxBytes(tx, false)
 			if len(payload) != total {
